@@ -40,7 +40,7 @@ class Operation(Enum):
 
 
 def IsComparison(op):
-    return 200 < op.value < 210
+    return 200 <= op.value < 210
 
 
 _op_str_map = {
